@@ -6,6 +6,8 @@ package e1
 
 import (
 	"crypto/sha256"
+	"fmt"
+	"runtime/debug"
 	"sync"
 	"sync/atomic"
 
@@ -61,6 +63,28 @@ func Names(alpha []Call, path []int) []string {
 	return out
 }
 
+// OnPanic, if set, receives a panic raised by the step under test (the names of the calls executed so far, the
+// panic value and the stack) instead of letting it end the process; the engine of that path is abandoned.
+var OnPanic func(calls []string, p interface{}, stack string)
+
+func guard(names []string, fn func(), dyn ...*[]string) (panicked bool) {
+	if OnPanic == nil {
+		fn()
+		return false
+	}
+	defer func() {
+		if p := recover(); p != nil {
+			panicked = true
+			if len(dyn) > 0 {
+				names = *dyn[0]
+			}
+			OnPanic(names, p, string(debug.Stack()))
+		}
+	}()
+	fn()
+	return false
+}
+
 // BFS explores all call sequences up to Depth with state deduplication.
 func BFS(cfg Config) *Stats {
 	if cfg.New == nil {
@@ -98,18 +122,26 @@ func BFS(cfg Config) *Stats {
 				}
 				atomic.AddInt64(&st.ReplayCalls, int64(len(path)))
 				full := append(append([]int{}, path...), ci)
-				var pre interface{}
-				if cfg.Before != nil {
-					pre = cfg.Before(w, full)
+				var obs string
+				var k [32]byte
+				panicked := guard(Names(cfg.Alphabet, full), func() {
+					var pre interface{}
+					if cfg.Before != nil {
+						pre = cfg.Before(w, full)
+					}
+					obs = call.Do(w)
+					atomic.AddInt64(&st.Transitions, 1)
+					// the key is taken before After, which may probe the engine with further writes
+					k = sha256.Sum256([]byte(cfg.Key(w)))
+					if cfg.After != nil {
+						cfg.After(w, full, pre, obs)
+					}
+					w.Close()
+				})
+				if panicked {
+					// the engine may be left in any state (locks held): it is abandoned, the state is not expanded
+					continue
 				}
-				obs := call.Do(w)
-				atomic.AddInt64(&st.Transitions, 1)
-				// the key is taken before After, which may probe the engine with further writes
-				k := sha256.Sum256([]byte(cfg.Key(w)))
-				if cfg.After != nil {
-					cfg.After(w, full, pre, obs)
-				}
-				w.Close()
 				succKeys[k] = true
 				mu.Lock()
 				outcomes[call.Name+"=>"+obs] = true
@@ -211,16 +243,24 @@ func PathsFrom(fixed []int, nActions, depth int, newRunner func() Runner, stop f
 			if stop != nil && stop() {
 				return
 			}
-			r := newRunner()
 			failedAt := -1
-			for i, a := range seq {
-				atomic.AddInt64(&ps.Steps, 1)
-				if !r.Step(a) {
-					failedAt = i
-					break
+			var at []string
+			panicked := guard(nil, func() {
+				r := newRunner()
+				for i, a := range seq {
+					atomic.AddInt64(&ps.Steps, 1)
+					at = append(at, fmt.Sprintf("action %d", a))
+					if !r.Step(a) {
+						failedAt = i
+						break
+					}
 				}
+				r.Done()
+			}, &at)
+			if panicked && failedAt < 0 {
+				// the subtree below the panicking step is skipped
+				failedAt = len(at) - 1
 			}
-			r.Done()
 			// advance to the next sequence (skipping the subtree of a disabled prefix)
 			pos := depth - 1
 			if failedAt >= 0 {
@@ -269,18 +309,19 @@ func replayOnly(cfg Config) *Stats {
 		path = append(path, found)
 	}
 	w := cfg.New()
-	defer w.Close()
 	for _, c := range path[:len(path)-1] {
 		cfg.Alphabet[c].Do(w)
 	}
-	var pre interface{}
-	if cfg.Before != nil {
-		pre = cfg.Before(w, path)
-	}
-	obs := cfg.Alphabet[path[len(path)-1]].Do(w)
-	if cfg.After != nil {
-		cfg.After(w, path, pre, obs)
-	}
+	guard(cfg.ReplayNames, func() {
+		var pre interface{}
+		if cfg.Before != nil {
+			pre = cfg.Before(w, path)
+		}
+		obs := cfg.Alphabet[path[len(path)-1]].Do(w)
+		if cfg.After != nil {
+			cfg.After(w, path, pre, obs)
+		}
+	})
 	st.States, st.Transitions, st.MaxDepth = 1, 1, len(path)
 	st.ReplayCalls = int64(len(path) - 1)
 	st.Shortest = [][]string{cfg.ReplayNames}
